@@ -118,6 +118,14 @@ class Reg(Logic):
         if not(self.e is None): msg += 'E'
         if not(self.reset_value == 0): msg += '_v{}'.format(self.reset_value)
         
+        # port widths that the name does not imply, and a clock other than the default one, make a different module
+        if (self.d.getWidth() != self.q.getWidth()): msg += '_d{}'.format(self.d.getWidth())
+        if not(self.e is None) and (self.e.getWidth() != 1): msg += '_e{}'.format(self.e.getWidth())
+        if not(self.r is None) and (self.r.getWidth() != 1): msg += '_r{}'.format(self.r.getWidth())
+        
+        clkname = getObjectClockDriver(self).name
+        if (clkname != 'clk'): msg += '_' + clkname
+        
         return msg
             
 class TReg(Logic):
